@@ -7,6 +7,7 @@ import (
 	"math/big"
 	"sort"
 	"strings"
+	"sync"
 )
 
 type SortKind int
@@ -29,6 +30,7 @@ type Sort struct {
 }
 
 var sortTab = map[string]*Sort{}
+var sortMu sync.Mutex
 
 func internSort(s *Sort) *Sort {
 	switch s.K {
@@ -45,6 +47,8 @@ func internSort(s *Sort) *Sort {
 	case KSlice:
 		s.str = "Slice"
 	}
+	sortMu.Lock()
+	defer sortMu.Unlock()
 	if o, ok := sortTab[s.str]; ok {
 		return o
 	}
@@ -133,6 +137,7 @@ type Term struct {
 
 var termTab = map[string]*Term{}
 var termCount int
+var termMu sync.Mutex
 
 func mk(op, name string, s *Sort, lit *big.Int, args ...*Term) *Term {
 	var b strings.Builder
@@ -154,6 +159,8 @@ func mk(op, name string, s *Sort, lit *big.Int, args ...*Term) *Term {
 		}
 	}
 	k := b.String()
+	termMu.Lock()
+	defer termMu.Unlock()
 	if t, ok := termTab[k]; ok {
 		return t
 	}
@@ -174,8 +181,8 @@ func BoolLit(b bool) *Term {
 	}
 	return False
 }
-func IntLit(n int64) *Term       { return mk("lit", "", IntS, big.NewInt(n)) }
-func IntLitB(n *big.Int) *Term   { return mk("lit", "", IntS, new(big.Int).Set(n)) }
+func IntLit(n int64) *Term           { return mk("lit", "", IntS, big.NewInt(n)) }
+func IntLitB(n *big.Int) *Term       { return mk("lit", "", IntS, new(big.Int).Set(n)) }
 func Var(name string, s *Sort) *Term { return mk("var", name, s, nil) }
 func BVLit(n *big.Int, w int) *Term {
 	m := new(big.Int).Lsh(big.NewInt(1), uint(w))
